@@ -134,7 +134,7 @@ def specs_for(ctx):
     if not ctx.quick:
         states_b, _ = emit_states(small=False)
         meta["emitted_states_big"] = len(states_b)
-        for st in rng.sample(states_b, 1500):
+        for st in rng.sample(states_b, min(1500, len(states_b))):
             w = World(st["modules"], st["imports"])
             sets = [partitions(rng, tops_of(w), rng.randint(2, 4), kinds=rng.choice(["names", "regex", "mixed"]))]
             specs.append(_episode(rng, w, sets, n_rules=40))
